@@ -41,13 +41,16 @@ theorem toValueInt_in (t : Entry) (ht : t ∈ table) (i : Int) (h : inIntDomain 
     repeat' split
     all_goals omega
 
-/-- an accepted integer passes the validation pre-check (with the `is_u64` repair for NonZeroU*) -/
+/-- an accepted integer passes the validation pre-check of its own type (whichever disjunction of
+    `is_i64()` / `is_u64()` the source has) -/
 theorem isValidInt_in (t : Entry) (ht : t ∈ table) (i : Int) (h : inIntDomain t.name i) :
     isValidInt .none t (.int i) = true := by
   simp only [table, List.mem_cons, List.not_mem_nil, or_false] at ht
   rcases ht with rfl | rfl | rfl | rfl | rfl | rfl | rfl | rfl | rfl | rfl | rfl | rfl | rfl | rfl | rfl | rfl | rfl | rfl | rfl | rfl <;>
   · simp [inIntDomain, intKind, minOf, maxOf] at h
-    simp [isValidInt, Defects.none, readable, i64Min, i64Max, u64Max]
+    simp only [isValidInt, Defects.none, readableB, List.any_cons, List.any_nil,
+      Bool.or_false, Bool.or_eq_true, Bool.and_eq_true, decide_eq_true_eq, Bool.false_eq_true, and_false, if_false, reduceCtorEq]
+    simp only [i64Min, i64Max, u64Max]
     omega
 
 theorem find_name_unique (items : List (List Char × Nat)) (hn : (items.map (·.1)).Nodup)
